@@ -73,7 +73,17 @@ func c04Gen(rng *verifsim.RNG, idx int, tier string) *Plan {
 			p.Actions = append(p.Actions, Action{At: at, Kind: "http", Path: "/_/api/interfaces"})
 		}
 	}
-	if rng.Bool(0.25) {
+	if rng.Bool(0.2) {
+		// A forwarding read that fails right after a flip: whatever the daemon
+		// does then, it must not advertise the stale state.
+		p.Class = "read-fails"
+		iw := n.Ifaces[rng.Intn(nif)]
+		t0 := int64(rng.Dur(4*time.Second, horizon))
+		p.Actions = append(p.Actions, Action{At: t0, Kind: "fwd", If: iw.Name, On: !iw.Fwd},
+			rsAction(t0+2000, hostAddr(0)))
+		p.Actions[len(p.Actions)-1].If = iw.Name
+		p.Faults = append(p.Faults, Fault{Seam: "fwd", If: iw.Name, From: t0 + 1000, Count: rng.Range(1, 2), Err: []string{"fs.EIO", "fs.EPERM", "fs.ENOENT"}[rng.Intn(3)]})
+	} else if rng.Bool(0.25) {
 		// Flip while a build is parked right after its forwarding read: the RA
 		// must carry the value that build read.
 		p.Class = "held-build"
